@@ -35,7 +35,10 @@ func alwaysNonNil(c *Ctx, v ssa.Value) bool {
 	if h == nil {
 		return false
 	}
-	fl, known := constBool(call.Common().Args[h.FailIdx])
+	if h.ErrResult != 0 {
+		return false // the answer is one of several results: the call itself is a tuple
+	}
+	fl, known := h.failureAt(call)
 	return known && fl
 }
 
